@@ -1,4 +1,5 @@
 import CatiiProofs.CubeCount
+import CatiiProofs.DiffGenBridge
 /-!
 # C02 — the count cube equals the brute-force contingency table
 
@@ -80,5 +81,19 @@ example : CubeOK exDims [2, 2] 2 := by
     have : a = 0 ∨ a = 1 := by simp [exDims] at ha; omega
     rcases this with rfl | rfl <;> decide
 example : CubeOK [] [] 5 := ⟨rfl, by simp, by simp, by simp⟩
+
+
+/-! ### the marginal pass REGENERATED from `_compute_common_cells_from_marginal_diffs` (`tools/translate_diff.py`)
+
+`Gen.diffPass` records what the current source writes, subtracts from and sums in one pass (as selections along the pass's
+axis and along the other axes); `passOf` is the pass those data describe. -/
+
+/-- it is the pass `passFn` that `count_equals_brute_force` and the inclusion-exclusion theorem are about - in any additive
+commutative group - and the passes run in ascending order over whole other axes, summing over the pass's own axis -/
+theorem generated_pass_is_the_modelled_pass {α : Type} [AddCommGroup α] (exts cms : List Nat) (k : Nat) (R : Cell → α) (c : Cell) :
+    passOf Gen.diffPass exts cms k R c = passFn exts cms k R c ∧
+    Gen.diffPass.ascending = true ∧ Gen.diffPass.written.2 = .all ∧ Gen.diffPass.minuend.2 = .all ∧
+    Gen.diffPass.summed.2 = .all ∧ Gen.diffPass.sumOverPassAxis = true :=
+  ⟨gen_pass_is_passFn exts cms k R c, gen_pass_facts⟩
 
 end Catii.C02
